@@ -135,6 +135,40 @@ def _operands():
     for mode, src in LAYOUT_OPERANDS:
         add(mode, src)
 
+    # every valid call-argument sequence of up to 4 elements over {name, *starred, k=v, **kw} and the corresponding sequences / parameter lists
+    import itertools
+
+    for n in range(1, 5):
+        for combo in itertools.product(('N', '*S', 'K=v', '**D'), repeat=n):
+            elems = [e.replace('N', f'n{i}').replace('S', f's{i}').replace('K', f'k{i}').replace('D', f'd{i}') for i, e in enumerate(combo)]
+            txt = ', '.join(elems)
+
+            try:
+                ast.parse(f'f({txt})')
+            except SyntaxError:
+                continue
+
+            add('_arglikes', txt)
+
+            if all(e[0] in 'n*' and not e.startswith('**') for e in elems):
+                add('expr', f'[{txt}]')
+                add('expr', f'({txt},)')
+
+            try:
+                ast.parse(f'def f({txt}): pass')
+                add('arguments', txt)
+            except SyntaxError:
+                pass
+
+            try:
+                ast.parse(f'match _:\n case C({txt}): pass')
+                add('_pattern_attrlikes', txt)
+            except SyntaxError:
+                pass
+
+    for s in ('a, /, b', 'a, /, b=1, *c, d, e=2, **f', '*, k', '*, k=1, j', 'a=1, *, k', 'a, b=2, /, c=3', '*a, b', '*a, b, c=1', 'a, *b, c', 'a: int, *b: str, c: float = 1'):
+        add('arguments', s)
+
     for s in gen.EXPR_DONORS:
         add('expr_all' if s.startswith('*') else 'expr', s)
 
